@@ -230,7 +230,29 @@ bit-flip faults; `C08-r10c08-m1` (std/ut pair rule enforced by a plain `zip`, so
 stale slots of a reused buffer) fired the C17 buffer oracles; `C19-r10c19-m1` (no-alloc forward scan returning `Err` on an exact hit) and `m2`
 (`Path::join` under std, `format!` otherwise) fired the cross-build comparison; `C20-r10c20-m1` (empty files skipped in the directory scan)
 and `m2` (`:localtime` treated as `localtime`) fired `C20.open_history`.
-@@R11@@
+Eleventh round (third session; agents given the property text plus a list of the *kinds* of change earlier rounds had already tried, and
+asked for the least obvious places - silent wrong values, error values, call sequences, single feature sets): 18 changes, 4 missed at first.
+
+* `seeded/C07-r11c07-m1` (i128 -> i64 narrowing in `total_nanoseconds_to_timespec` that only watches the sign, so `(2^64 + 5)` seconds is
+  accepted as 1970-01-01T00:00:05) and `m2` (the fixed-rule branch of the search range-checks the local seconds instead of the instant, so a
+  date at the year limits comes back `Ok` with a Unix time outside the supported range): neither panics nor overflows - the property's last
+  clause (*invalid or unsupported input yields an error value*) had no oracle of its own. Added `C07.error_value`: an accepted total must be
+  the total of the value handed back (`from_total_nanoseconds*`, with a second generated total whose seconds exceed 64 bits while their
+  low 64 bits look like a supported time), and every date-time a search hands back must carry a timestamp `from_timespec` accepts.
+  `m3` (minute/second of a v3 footer rule time multiplied before being validated) was caught as it was (`C07.panic`).
+* `seeded/C15-r11c15-m2` (TZ values beginning with `./` or `../` treated as explicit paths, i.e. relative to the working directory - process-global
+  state another thread can change): the ambient value list had bare relative names (`corpus/Asia/Tokyo`) but none with a dot prefix, which this
+  change special-cases. Added `./` and `../` values that exist relative to each working directory the environment actor moves between.
+* `seeded/C15-r11c15-m3` (`Error::Io` and `ReadFileFn` through an alias that drops `Send + Sync` in the alloc-only build): the auto-trait gate was
+  built with tz-rs's default features only. It is now built once per feature set (`autotraits`, `autotraits-alloc`, `autotraits-core`; the types
+  that exist only with `alloc` are gated in the gate crate the same way).
+* Caught as they were: `C15-r11c15-m1` (an `RwLock<usize>` directory hint inside `TimeZoneSettings`: `C15.alone_vs_concurrent` through the open history
+  and the Freeze gate); `C08-r11c08-m1/m2/m3` (indicator pairs checked only when both vectors are present; `str::trim()` on the footer; 32-bit times
+  decoded unsigned in v1 files); `C17-r11c17-m1/m2/m3` (store skipped when the slot already compares equal - equality looks at the instant only;
+  a skipped entry not built when the buffer is full; up-front validation in `find_n` refusing 23:59:60 of the last supported year);
+  `C19-r11c19-m1/m2/m3` (sign of a sub-minute negative offset under alloc; results committed only on success under alloc; a `not(std)` fast path
+  in a Euclidean division); `C20-r11c20-m1/m2/m3` (`trim()` in the fallback, trailing `/` stripped from directories, one retry on `Interrupted`).
+
 Two-site breakages (`seeded/C07-duo2-m1`, `C08-duo2-m2`, `C17-duo2-m3`): each consists of two edits in different functions that are
 harmless alone (a relaxed range check in `TimeZoneRef::new` + a hoisted index in `find`; explicit enum discriminants + a numeric version
 comparison; an up-front validation in `find_n` + a reordered range check in the shared search). All three combinations were caught by the
